@@ -54,7 +54,8 @@ def gen_tokens(rng, cfg, size, allow_undef=True):
     rng.shuffle(labels)
     to_define = list(labels)
     externs = ["ext0", "ext1"] if allow_undef else []
-    cfg_targets = labels + externs + ["modfn", "modproxy"]
+    # (the module also has a code symbol whose name looks like a temporary label, as ddisasm's own labels do)
+    cfg_targets = labels + externs + ["modfn", "modproxy", tp + "mod"]
     ref_targets = cfg_targets + ["moddata"]
     toks = []
     if fam == "mips":
